@@ -1265,6 +1265,33 @@ impl ValueTable {
 	}
 }
 
+#[cfg(pdb_verif)]
+impl ValueTable {
+	pub(crate) fn verif_digest(&self, h: &mut crate::verif::Hasher) {
+		h.u64(self.id.as_u16() as u64);
+		h.u64(self.filled.load(Ordering::SeqCst));
+		h.u64(self.written.load(Ordering::SeqCst));
+		h.u64(self.last_removed.load(Ordering::SeqCst));
+		h.u64(self.dirty_header.load(Ordering::SeqCst) as u64);
+		h.u64(self.file.capacity.load(Ordering::SeqCst));
+		if let Some(f) = &self.free_entries {
+			let f = f.read();
+			h.u64(f.stack.len() as u64);
+			for e in f.stack.iter() {
+				h.u64(*e);
+			}
+		}
+	}
+
+	pub(crate) fn verif_is_default(&self) -> bool {
+		self.filled.load(Ordering::SeqCst) == 1 &&
+			self.written.load(Ordering::SeqCst) == 1 &&
+			self.last_removed.load(Ordering::SeqCst) == 0 &&
+			!self.dirty_header.load(Ordering::SeqCst) &&
+			self.file.capacity.load(Ordering::SeqCst) == 0
+	}
+}
+
 pub mod key {
 	use super::{EntryRef, FullEntry};
 	use crate::{Key, Result};
